@@ -479,6 +479,8 @@ static int sim_cond_wait(const void* c, const void* m, int64_t deadline_ns /* si
     SimMutex& sm = mtx(m);
     uint32_t cid = logical_id(c);
     if (sm.owner != me->id) { log_event("condwait-not-owner", cid); return EPERM; }
+    // a thread can be preempted between evaluating its predicate and blocking, still holding the mutex
+    schedule(Y_CONDWAIT, cid);
     g.st.cond_waits++;
     log_event("condwait", cid, deadline_ns >= 0 ? (uint64_t)deadline_ns : ~0ull);
     // atomically release the mutex and block
